@@ -2,7 +2,7 @@
 //
 // (a) uri.NormalizeEscapedPath on every string up to length N over a 12-symbol alphabet, against
 //
-//	a reference normalizer; (c) parser half: every pair of spellings of small path keys must be
+//	a reference normalizer; (b) every octet 0x00-0xFF as an escape in all four hex-case combinations and raw, in 6 contexts and next to 16 other escapes. (c) parser half: every pair of spellings of small path keys must be
 //	reported as duplicates exactly when they are equivalent. The router half (b) is part of C05's
 //	regenerated-router run (escaped request variants) and is reported there and here by count.
 package main
@@ -198,6 +198,43 @@ type caseC struct {
 	PathB string `json:"path_b"`
 	Equiv bool   `json:"equivalent"`
 	Err   string `json:"error,omitempty"`
+}
+
+// partB: the octet sweep.  The alphabet of part (a) holds a handful of hex digits; which octets are
+// unreserved is a per-octet table, so every octet 0x00-0xFF is tried as an escape in the four hex
+// case combinations and raw, alone and in five contexts (a seeded change of the classification of
+// '~' was only caught through the parser half).
+func partB(r *vf.Run) {
+	var n int64
+	try := func(s string) {
+		n++
+		if cl, obs := judge(s); cl != "" {
+			want, _ := ref(s)
+			r.Violation(map[string]string{"class": "normalize/" + cl, "input": fmt.Sprintf("%q", s)}, len(s), caseA{"normalize", fmt.Sprintf("%q", s), obs, want})
+		}
+	}
+	const up, lo = "0123456789ABCDEF", "0123456789abcdef"
+	for b := 0; b < 256; b++ {
+		var escs []string
+		for _, h := range []string{up, lo} {
+			for _, l := range []string{up, lo} {
+				escs = append(escs, "%"+string(h[b>>4])+string(l[b&15]))
+			}
+		}
+		escs = append(escs, string([]byte{byte(b)}))
+		for _, e := range escs {
+			for _, ctx := range []string{"@", "/@", "a@b", "@@", "%2F@%2f", "/a/@/b%"} {
+				try(strings.ReplaceAll(ctx, "@", e))
+			}
+			for c := 0; c < 256; c += 17 {
+				try(e + fmt.Sprintf("%%%02x", c))
+				try(fmt.Sprintf("%%%02X", c) + e)
+			}
+		}
+	}
+	r.Eval(n)
+	r.NontrivialN(n)
+	r.Set("octet_sweep_strings", n)
 }
 
 func specFor(a, b string) string {
@@ -402,6 +439,7 @@ func main() {
 		maxLen, maxAtoms = 8, 4
 	}
 	partA(r, maxLen)
+	partB(r)
 	partC(r, maxAtoms)
 	r.Set("max_len", maxLen)
 	r.Set("alphabet", fmt.Sprintf("%q", alpha))
@@ -409,5 +447,5 @@ func main() {
 	r.Sample(caseA{Kind: "normalize", Input: `"/%2d%E9"`, Want: "/-%E9"})
 	r.Assume("reference normalizer in cmd/c12 (RFC 3986 6.2.2) is the oracle; net/url PathUnescape is used only for the octet-equality clause",
 		"router half (equivalent re-escapings of request paths reach the same operation) is enumerated by the C05 check on regenerated routers")
-	r.Finish(fmt.Sprintf("(a) every string of length <= %d over the 12-symbol alphabet through uri.NormalizeEscapedPath vs the reference (ok flag, output, idempotence, octet equality, no panic); non-trivial = distinct string containing '%%'. (c) parser half: all pairs of spellings of every path key of <= %d atoms (must be rejected as duplicate) and first/last spellings of keys one atom apart (must be accepted); each pair distinct.", maxLen, maxAtoms))
+	r.Finish(fmt.Sprintf("(a) every string of length <= %d over the 12-symbol alphabet through uri.NormalizeEscapedPath vs the reference (ok flag, output, idempotence, octet equality, no panic); non-trivial = distinct string containing '%%'. (b) every octet 0x00-0xFF as an escape in all four hex-case combinations and raw, in 6 contexts and next to 16 other escapes. (c) parser half: all pairs of spellings of every path key of <= %d atoms (must be rejected as duplicate) and first/last spellings of keys one atom apart (must be accepted); each pair distinct.", maxLen, maxAtoms))
 }
